@@ -1,8 +1,33 @@
 import PybtexModel.Drv.Json
+import PybtexModel.Model.Wrap
 open Lean
 namespace Pybtex.Drv.C19
+open Pybtex.Wrap
+
+/-- `{"op":"wrap","text":…,"width":…,"indent":…}` ↦ `out` = `wrap(text, width, indent)`,
+`spec.lines` = the lines yielded by `iter_lines` before `rstrip`,
+`spec.first_break` = `find_break(text)` (`null` for `None`). -/
+def wrapOp (j : Json) : Except String Json := do
+  let text ← getStr j "text"
+  let width ← getInt j "width"
+  let indent ← getStr j "indent"
+  pure (obj [("out", strToJson (wrap width indent text)),
+             ("spec", obj [("lines", strs (iterLines width indent text)),
+                           ("first_break", optJ nat (findBreak width indent text))])])
+
+/-- `{"op":"wrap_widths","text":…,"widths":[…],"indent":…}`: the same text wrapped at every width
+of the list (keeps the exhaustive sweeps cheap); `out` and `spec` are lists in the same order. -/
+def wrapWidthsOp (j : Json) : Except String Json := do
+  let text ← getStr j "text"
+  let widths ← (← getArr j "widths").mapM fun w => w.getInt?
+  let indent ← getStr j "indent"
+  pure (obj [("out", arr (widths.map fun w => strToJson (wrap w indent text))),
+             ("spec", arr (widths.map fun w =>
+                obj [("lines", strs (iterLines w indent text)),
+                     ("first_break", optJ nat (findBreak w indent text))]))])
 
 /-- driver ops of this property: (op name, handler) -/
-def handlers : List (String × (Json → Except String Json)) := []
+def handlers : List (String × (Json → Except String Json)) :=
+  [("wrap", wrapOp), ("wrap_widths", wrapWidthsOp)]
 
 end Pybtex.Drv.C19
